@@ -278,7 +278,7 @@ partial def compileAttrs (env : CEnv) (attrs : List Attr) (ablocks : List String
     if a.mustEscape then
       let t ← match ← compileExpr env a.val with
         | some t => pure t
-        | none => .error (.parse "wrong number of args for __attr")   -- `(__attr "n"  true)`: caught at execution
+        | none => pure nullCall    -- a literal null: `(__attr "n" null true)`
       pure (TExpr.fcall "__attr" [.lit (.str a.name), t, .lit (.bool true)])
     else
       match a.val with
